@@ -340,3 +340,139 @@ theorem run_alive (cfg : ICfg) (hr : cfg.recover = true) : ∀ (ps : List Payloa
 
 end Ins
 end Zeno.Sql
+
+/-! ## CROSSHIFT: the number of fields is bounded by the cap -/
+
+namespace Zeno.Sql.Cross
+
+theorem ceil_div_le {l v c : Nat} (hv : 0 < v) (h : l / v ≤ c) : (l + v - 1) / v ≤ c + 1 := by
+  have h1 : l < v * (l / v + 1) := Nat.lt_mul_div_succ l hv
+  have h2 : v * (l / v + 1) ≤ v * (c + 1) := Nat.mul_le_mul_left v (by omega)
+  have h4 : v * (c + 2) = v * (c + 1) + v := by rw [show c + 2 = (c + 1) + 1 from rfl, Nat.mul_succ]
+  have h3 : l + v - 1 < v * (c + 2) := by omega
+  exact Nat.lt_succ_iff.mp (Nat.div_lt_of_lt_mul h3)
+
+/-- the loop after both values were made positive and the cap was checked -/
+theorem loop_bounded (g : Bool) (cap : Int) (s : St) (hl : 0 < s.limit) (hv : 0 < s.interval)
+    (hcap : ¬ cap < s.limit.tdiv s.interval) (hg : g = true) :
+    ∃ n, loopOut g s = .fields n ∧ (n : Int) ≤ cap + 1 := by
+  subst hg
+  unfold loopOut
+  simp only [show ¬ s.limit ≤ 0 by omega, show ¬ s.interval ≤ 0 by omega, if_false, Bool.not_true, Bool.false_and]
+  refine ⟨_, rfl, ?_⟩
+  obtain ⟨l, hl'⟩ := Int.eq_ofNat_of_zero_le (Int.le_of_lt hl)
+  obtain ⟨v, hv'⟩ := Int.eq_ofNat_of_zero_le (Int.le_of_lt hv)
+  rw [hl', hv'] at hcap ⊢
+  simp only [Int.toNat_natCast]
+  have hvpos : 0 < v := by omega
+  rw [Int.tdiv_eq_ediv_of_nonneg (by omega)] at hcap
+  have hq : ((l / v : Nat) : Int) ≤ cap := by
+    have : ((l : Int) / (v : Int)) = ((l / v : Nat) : Int) := by simp
+    omega
+  have hc0 : 0 ≤ cap := by
+    have : (0 : Int) ≤ ((l / v : Nat) : Int) := Int.natCast_nonneg _
+    omega
+  obtain ⟨c, hc⟩ := Int.eq_ofNat_of_zero_le hc0
+  rw [hc] at hq ⊢
+  have := ceil_div_le (l := l) (v := v) (c := c) hvpos (by exact_mod_cast hq)
+  exact_mod_cast this
+
+theorem canonical_bounded (cap cutoff interval : Int) :
+    crosshift cap canonical cutoff interval = .error ∨
+    ∃ n, crosshift cap canonical cutoff interval = .fields n ∧ (n : Int) ≤ cap + 1 := by
+  unfold crosshift canonical
+  simp only [run]
+  by_cases hc : cutoff = 0
+  · simp [hc]
+  by_cases hi : interval = 0
+  · simp [hc, hi]
+  simp only [hc, hi, if_false]
+  -- the state after `interval = |interval|`, `limit = |cutoff|`
+  generalize hs : (if (if interval < 0 then ({ cutoff := cutoff, interval := -interval } : St) else { cutoff := cutoff, interval := interval }).cutoff < 0 then _ else _ : St) = s
+  have hint : 0 < s.interval := by
+    subst hs; split <;> split <;> simp_all <;> omega
+  have hlim : 0 < s.limit := by
+    subst hs; split <;> split <;> simp_all <;> omega
+  simp only [show ¬ s.interval = 0 by omega, if_false]
+  by_cases hcap : cap < s.limit.tdiv s.interval
+  · simp [hcap]
+  · simp only [hcap, if_false]
+    exact Or.inr (loop_bounded true cap s hlim hint hcap rfl)
+
+/-- the statement order without the loop's overflow guard (the code before C16-fix-16) -/
+def unguarded : List Op :=
+  [.parseCutoff, .zeroCutoff, .parseInterval, .zeroInterval, .absInterval, .limitIsCutoff, .absLimit, .cap, .loop]
+
+theorem unguarded_bounded (cap cutoff interval : Int) (hsum : cutoff.natAbs + interval.natAbs ≤ maxDur.toNat) :
+    crosshift cap unguarded cutoff interval = .error ∨
+    ∃ n, crosshift cap unguarded cutoff interval = .fields n ∧ (n : Int) ≤ cap + 1 := by
+  unfold crosshift unguarded
+  simp only [run]
+  by_cases hc : cutoff = 0
+  · simp [hc]
+  by_cases hi : interval = 0
+  · simp [hc, hi]
+  simp only [hc, hi, if_false]
+  generalize hs : (if (if interval < 0 then ({ cutoff := cutoff, interval := -interval } : St) else { cutoff := cutoff, interval := interval }).cutoff < 0 then _ else _ : St) = s
+  have hint : 0 < s.interval ∧ s.interval.toNat = interval.natAbs := by
+    subst hs; split <;> split <;> simp_all <;> omega
+  have hlim : 0 < s.limit ∧ s.limit.toNat = cutoff.natAbs := by
+    subst hs; split <;> split <;> simp_all <;> omega
+  simp only [show ¬ s.interval = 0 by omega, if_false]
+  by_cases hcap : cap < s.limit.tdiv s.interval
+  · simp [hcap]
+  · simp only [hcap, if_false]
+    right
+    obtain ⟨n, hn, hle⟩ := loop_bounded true cap s hlim.1 hint.1 hcap rfl
+    refine ⟨n, ?_, hle⟩
+    -- the unguarded loop does the same unless its last addition overflows, which the precondition excludes
+    unfold loopOut at hn ⊢
+    simp only [show ¬ s.limit ≤ 0 by omega, show ¬ s.interval ≤ 0 by omega, if_false, Bool.not_true, Bool.false_and,
+      Bool.not_false, Bool.true_and] at hn ⊢
+    have hmul : (s.limit.toNat + s.interval.toNat - 1) / s.interval.toNat * s.interval.toNat ≤ s.limit.toNat + s.interval.toNat - 1 :=
+      Nat.div_mul_le_self _ _
+    have hno : ¬ maxDur < (((s.limit.toNat + s.interval.toNat - 1) / s.interval.toNat * s.interval.toNat : Nat) : Int) := by
+      have : maxDur.toNat = 9223372036854775807 := by decide
+      have hmd : maxDur = 9223372036854775807 := rfl
+      rw [hlim.2, hint.2] at hmul ⊢
+      omega
+    simp only [hno, decide_false]
+    simpa using hn
+
+/-- the dispatch model's CROSSHIFT branch returns (ok-or-error) exactly when the statement-order
+    program yields fields, and an error exactly when that one does -/
+theorem crosshiftTail_agrees (c : Ctx) (v : VKind) (as : String) (l1 l2 : Lit)
+    (h1 : l1.durOk = true) (h2 : l2.durOk = true) :
+    ((crosshiftTail Cfg.fixed c v as l1 l2).val.isSome = true ↔
+      ∃ n, crosshift maxCrosshiftFields canonical l1.durNs l2.durNs = .fields n) := by
+  unfold crosshiftTail crosshift canonical
+  simp only [run, h1, h2, Bool.not_true, Bool.false_eq_true, if_false, Cfg.fixed, Bool.true_and]
+  by_cases hc : l1.durNs = 0
+  · simp [hc, Res.error]
+  by_cases hi : l2.durNs = 0
+  · simp [hc, hi, Res.error]
+  simp only [beq_iff_eq, hc, hi, if_false]
+  generalize hs : (if (if l2.durNs < 0 then ({ cutoff := l1.durNs, interval := -l2.durNs } : St) else { cutoff := l1.durNs, interval := l2.durNs }).cutoff < 0 then _ else _ : St) = s
+  have hint : 0 < s.interval ∧ s.interval.toNat = l2.durNs.natAbs := by
+    subst hs; split <;> split <;> simp_all <;> omega
+  have hlim : 0 < s.limit ∧ s.limit.toNat = l1.durNs.natAbs := by
+    subst hs; split <;> split <;> simp_all <;> omega
+  have hint' : s.interval = (l2.durNs.natAbs : Int) := by omega
+  have hlim' : s.limit = (l1.durNs.natAbs : Int) := by omega
+  simp only [show ¬ s.interval = 0 by omega, if_false]
+  have hdiv : s.limit.tdiv s.interval = (l1.durNs.natAbs : Int) / (l2.durNs.natAbs : Int) := by
+    rw [hlim', hint', Int.tdiv_eq_ediv_of_nonneg (by omega)]
+  rw [hdiv]
+  simp only [Int.natCast_ediv]
+  by_cases hcap : maxCrosshiftFields < (l1.durNs.natAbs : Int) / (l2.durNs.natAbs : Int)
+  · simp [hcap, Res.error]
+  · simp only [hcap, decide_false, if_false, Bool.false_eq_true]
+    constructor
+    · intro _
+      unfold loopOut
+      simp only [show ¬ s.limit ≤ 0 by omega, show ¬ s.interval ≤ 0 by omega, if_false, Bool.not_true, Bool.false_and, Bool.false_eq_true]
+      exact ⟨_, rfl⟩
+    · intro _
+      cases v <;> simp [exprCtor, Res.bind, Res.ok, Res.either]
+
+end Zeno.Sql.Cross
